@@ -476,12 +476,12 @@ Qed.
 (** * Non-vacuity: the hypotheses hold on the 6-node example of ParisReducible, and the conclusion is the
     computed one. *)
 Example paris_total_example_hyps : 1 <= 6 /\ graph_ok 6 ex_G /\ weights_ok 6 ex_w.
-Proof. split; [lia|]. split; apply paris_reducible_example_hyps. Qed.
+Proof. destruct paris_reducible_example_hyps as (A & B & _). split; [lia|]. split; [exact A | exact B]. Qed.
 
 Example paris_total_example :
   exists D m t, paris_core exact false (1000#1)%Q 6 ex_G ex_w ex_w = Some (Ok (D, m, t)).
 Proof.
-  destruct paris_total_example_hyps as (Hn & HG & Hw). now apply paris_total.
+  destruct paris_total_example_hyps as (Hn & HG & Hw). exact (paris_total (1000#1)%Q 6 ex_G ex_w ex_w Hn HG Hw Hw).
 Qed.
 
 Example paris_total_example_computed :
